@@ -13,6 +13,7 @@ import (
 	"os/exec"
 	"path/filepath"
 	"regexp"
+	"sort"
 	"strconv"
 	"strings"
 	"sync"
@@ -42,23 +43,50 @@ type Case struct {
 	JSON                      []View // cli: -f json
 	HasFull, HasText, HasJSON bool
 	Note                      string
+	// runs of the real linter: per run the packages with (initial, failed, skipped, files) as the harness knows
+	// them by construction (Runs[i].CheckedFiles is then the EXPECTED list) and the CheckedFiles the real lintResult had
+	Pkgs          [][]PkgRes
+	ObsChecked    [][]string
+	HasObsChecked bool
 }
 
-var textRe = regexp.MustCompile(`^(.*?):(\d+):(\d+): (.*?)(?: \[(.*)\])? \((\S+)\)$`)
+type PkgRes struct {
+	Initial, Failed, Skipped bool
+	Files                    []string
+}
+
+var textRe = regexp.MustCompile(`(?s)^(?:-|(.*?):(\d+):(\d+)): (.*?)(?: \[([^\]\n]*)\])? \((\S+)\)$`)
+
+// firstLine: messages of compile errors span several lines; the harness keeps the first line everywhere.
+func firstLine(s string) string {
+	if i := strings.IndexByte(s, '\n'); i >= 0 {
+		return s[:i]
+	}
+	return s
+}
 
 func parseText(out []byte) ([]View, error) {
 	var vs []View
+	pending := ""
 	for _, line := range strings.Split(strings.TrimRight(string(out), "\n"), "\n") {
-		if line == "" {
+		if pending == "" && line == "" {
 			continue
+		}
+		if pending != "" {
+			line = pending + "\n" + line
 		}
 		m := textRe.FindStringSubmatch(line)
 		if m == nil {
-			return nil, fmt.Errorf("unparsable text line %q", line)
+			pending = line // a message that continues on the next line
+			continue
 		}
+		pending = ""
 		l, _ := strconv.Atoi(m[2])
 		c, _ := strconv.Atoi(m[3])
-		vs = append(vs, View{File: m[1], Line: l, Col: c, Msg: m[4], Builds: m[5], Cat: m[6]})
+		vs = append(vs, View{File: m[1], Line: l, Col: c, Msg: firstLine(m[4]), Builds: m[5], Cat: m[6]})
+	}
+	if pending != "" {
+		return nil, fmt.Errorf("unparsable text output %q", pending)
 	}
 	return vs, nil
 }
@@ -82,7 +110,7 @@ func parseJSON(out []byte) ([]View, error) {
 			return nil, err
 		}
 		vs = append(vs, View{File: p.Location.File, Line: p.Location.Line, Col: p.Location.Column,
-			EndFile: p.End.File, EndLine: p.End.Line, EndCol: p.End.Column, Cat: p.Code, Msg: p.Message})
+			EndFile: p.End.File, EndLine: p.End.Line, EndCol: p.End.Column, Cat: p.Code, Msg: firstLine(p.Message)})
 	}
 	return vs, nil
 }
@@ -184,58 +212,98 @@ func viaCLI(c *Case, nfiles int, exe, dir string, idx int) {
 }
 
 // matrixCases: the real `-matrix` path against the real `-f binary` output of the same configurations.
-// A module with files under build tags is linted with a three-line matrix; the runs are taken from
-// `-matrix -f binary` (decoded with decodeGob), the observations from `-matrix -f text` and `-f json`.
+// Module 1: files under build tags, every configuration compiles. Module 2: a GOOS-specific file with a type
+// error, so the package fails to compile under one configuration while the others report an 'all' problem
+// (U1000) in its common file. The problems of the runs are taken from `-matrix -f binary` (decodeGob); the
+// checked files of every run are EXPECTED from what the harness knows by construction (files of the packages
+// that compile in that configuration) and compared with the CheckedFiles of the real lintResult; the
+// observations are the output of `-matrix -f text` and `-f json`.
 func matrixCases(exe, work string) []Case {
-	root := filepath.Join(work, "mx")
-	hx.WriteFile(filepath.Join(root, "go.mod"), "module example.com/mx\n\ngo 1.22\n")
-	hx.WriteFile(filepath.Join(root, "common.go"), "package p\n\nfunc Common(x int) bool { return x == x }\n")
-	hx.WriteFile(filepath.Join(root, "foo.go"), "//go:build foo\n\npackage p\n\nfunc OnlyFoo(x int) bool {\n\thelper()\n\treturn x != x\n}\n")
-	hx.WriteFile(filepath.Join(root, "helper.go"), "package p\n\nfunc helper() {}\n")
-	hx.WriteFile(filepath.Join(root, "bar.go"), "//go:build bar\n\npackage p\n\nfunc unusedBar() {}\n")
-	hx.WriteFile(filepath.Join(root, "lonely.go"), "package p\n\nfunc lonely() {}\n")
-	matrix := "a: -tags=foo\nb: -tags=bar\nc:\n"
-	cache := filepath.Join(work, "mx-cache")
-	run := func(format string) []byte {
-		cmd := exec.Command(exe, "-matrix", "-f", format, "./...")
-		cmd.Dir = root
-		cmd.Env = append(hx.GoEnv(), "STATICCHECK_CACHE="+cache)
-		cmd.Stdin = strings.NewReader(matrix)
-		var stdout, stderr bytes.Buffer
-		cmd.Stdout, cmd.Stderr = &stdout, &stderr
-		err := cmd.Run()
-		if ee, ok := err.(*exec.ExitError); ok && ee.ExitCode() == 1 {
-			err = nil
+	var cases []Case
+	one := func(name string, files map[string]string, matrix string, pkgs [][]PkgRes) {
+		root := filepath.Join(work, name)
+		hx.WriteFile(filepath.Join(root, "go.mod"), "module example.com/"+name+"\n\ngo 1.22\n")
+		for f, src := range files {
+			hx.WriteFile(filepath.Join(root, f), src)
 		}
+		cache := filepath.Join(work, name+"-cache")
+		run := func(format string) []byte {
+			cmd := exec.Command(exe, "-matrix", "-f", format, "./...")
+			cmd.Dir = root
+			cmd.Env = append(hx.GoEnv(), "STATICCHECK_CACHE="+cache)
+			cmd.Stdin = strings.NewReader(matrix)
+			var stdout, stderr bytes.Buffer
+			cmd.Stdout, cmd.Stderr = &stdout, &stderr
+			err := cmd.Run()
+			if ee, ok := err.(*exec.ExitError); ok && ee.ExitCode() == 1 {
+				err = nil
+			}
+			if err != nil {
+				fatal(fmt.Errorf("staticcheck -matrix -f %s failed: %v: %s", format, err, stderr.String()))
+			}
+			return stdout.Bytes()
+		}
+		runs, err := lintcmd.VerifC12DecodeRuns(run("binary"))
 		if err != nil {
-			fatal(fmt.Errorf("staticcheck -matrix -f %s failed: %v: %s", format, err, stderr.String()))
+			fatal(err)
 		}
-		return stdout.Bytes()
-	}
-	runs, err := lintcmd.VerifC12DecodeRuns(run("binary"))
-	if err != nil {
-		fatal(err)
-	}
-	rel := func(f string) string {
-		if filepath.IsAbs(f) {
-			if r, err := filepath.Rel(root, f); err == nil {
-				return filepath.ToSlash(r)
+		if len(runs) != len(pkgs) {
+			fatal(fmt.Errorf("-matrix -f binary wrote %d runs for %d configurations", len(runs), len(pkgs)))
+		}
+		rel := func(f string) string {
+			if filepath.IsAbs(f) {
+				if r, err := filepath.Rel(root, f); err == nil {
+					return filepath.ToSlash(r)
+				}
+			}
+			return f
+		}
+		c := Case{Kind: "matrix", Base: -1, Runs: runs, Note: name + ": " + strings.ReplaceAll(strings.TrimSpace(matrix), "\n", " / "), Pkgs: pkgs, HasObsChecked: true}
+		for i := range c.Runs {
+			obs := append([]string{}, c.Runs[i].CheckedFiles...)
+			sort.Strings(obs)
+			c.ObsChecked = append(c.ObsChecked, obs)
+			c.Runs[i].CheckedFiles = nil // filled in from Pkgs (checked_of) by the check
+			for k := range c.Runs[i].Diagnostics {
+				c.Runs[i].Diagnostics[k].Message = firstLine(c.Runs[i].Diagnostics[k].Message)
 			}
 		}
-		return f
+		if c.Text, err = parseText(run("text")); err != nil {
+			fatal(err)
+		}
+		if c.JSON, err = parseJSON(run("json")); err != nil {
+			fatal(err)
+		}
+		for i := range c.JSON {
+			c.JSON[i].File, c.JSON[i].EndFile = rel(c.JSON[i].File), rel(c.JSON[i].EndFile)
+		}
+		c.HasText, c.HasJSON = true, true
+		cases = append(cases, c)
 	}
-	c := Case{Kind: "matrix", Base: -1, Runs: runs, Note: "a: -tags=foo / b: -tags=bar / c:"}
-	if c.Text, err = parseText(run("text")); err != nil {
-		fatal(err)
+	pk := func(failed bool, files ...string) []PkgRes {
+		return []PkgRes{{Initial: true, Failed: failed, Files: files}}
 	}
-	if c.JSON, err = parseJSON(run("json")); err != nil {
-		fatal(err)
-	}
-	for i := range c.JSON {
-		c.JSON[i].File, c.JSON[i].EndFile = rel(c.JSON[i].File), rel(c.JSON[i].EndFile)
-	}
-	c.HasText, c.HasJSON = true, true
-	return []Case{c}
+	one("mx", map[string]string{
+		"common.go": "package p\n\nfunc Common(x int) bool { return x == x }\n",
+		"foo.go":    "//go:build foo\n\npackage p\n\nfunc OnlyFoo(x int) bool {\n\thelper()\n\treturn x != x\n}\n",
+		"helper.go": "package p\n\nfunc helper() {}\n",
+		"bar.go":    "//go:build bar\n\npackage p\n\nfunc unusedBar() {}\n",
+		"lonely.go": "package p\n\nfunc lonely() {}\n",
+	}, "a: -tags=foo\nb: -tags=bar\nc:\n", [][]PkgRes{
+		pk(false, "common.go", "foo.go", "helper.go", "lonely.go"),
+		pk(false, "bar.go", "common.go", "helper.go", "lonely.go"),
+		pk(false, "common.go", "helper.go", "lonely.go"),
+	})
+	one("mxos", map[string]string{
+		"common.go":         "package p\n\nfunc Common(x int) bool { return x == x }\n\nfunc helper() {}\n",
+		"broken_windows.go": "package p\n\nvar broken int = \"not an int\"\n",
+		"extra_darwin.go":   "package p\n\nfunc onlyDarwin() {}\n",
+	}, "linux: GOOS=linux\ndarwin: GOOS=darwin\nwindows: GOOS=windows\n", [][]PkgRes{
+		pk(false, "common.go"),
+		pk(false, "common.go", "extra_darwin.go"),
+		pk(true, "broken_windows.go", "common.go"), // fails to compile: nothing was analysed
+	})
+	return cases
 }
 
 var (
